@@ -1,0 +1,26 @@
+//go:build verif
+
+package config
+
+// Contracts for govc (see /verif/DESIGN.md §8 C05). Comment-only file: it adds no code.
+
+// The exclusion-file readers and the regex compiler only build new values (files, HTTP and
+// regexp are outside the verified subset): assumed to write nothing the caller can see.
+//@ func readLocalExclusionFile
+//@   opaque
+//@   modifies nothing
+//@ func readRemoteExclusionFile
+//@   opaque
+//@   modifies nothing
+//@ func compileRegexes
+//@   opaque
+//@   modifies nothing
+//@   ensures freshslice(result)
+
+// GenerateCrawlConfig: whatever the operator configured, a successfully generated crawl
+// configuration excludes the two archive hosts.
+//@ func GenerateCrawlConfig
+//@   property C05
+//@   requires config != nil
+//@   loop range invariant [defaults] config != nil && utils.strIn(config.ExcludeHosts, "archive.org") && utils.strIn(config.ExcludeHosts, "archive-it.org")
+//@   ensures [defaults] result == nil ==> config != nil && utils.strIn(config.ExcludeHosts, "archive.org") && utils.strIn(config.ExcludeHosts, "archive-it.org") // C05: archive.org and archive-it.org are always excluded
